@@ -441,8 +441,6 @@ void h_to_integer_u64(void) { const int base = CC_BASE; RANGE_IN(CC_D64 + 3); TO
 /*@COMMON@*/
 #define STRTO_ANY(fn) if (fn == 0) { STRTO_POST(c_strtol, long); } else if (fn == 1) { STRTO_POST(c_strtoll, long long); }  \
     else if (fn == 2) { STRTO_POST(c_strtoul, unsigned long); } else { STRTO_POST(c_strtoull, unsigned long long); }
-#define STO_ANY(fn) if (fn == 0) STO_POST(s_stol, long) else if (fn == 1) STO_POST(s_stoll, long long)                     \
-    else if (fn == 2) STO_POST(s_stoul, unsigned long) else STO_POST(s_stoull, unsigned long long)
 #define REF64(uns, MAXL) ((uns) ? s_parse_w(s, n, base, F_WS | F_MINUS | F_PLUS | F_PREFIX, LO_u64, HI_u64, 1, 64, MAXL)    \
                                 : s_parse_w(s, n, base, F_WS | F_MINUS | F_PLUS | F_PREFIX, LO_i64, HI_i64, 0, 64, MAXL))
 
@@ -454,10 +452,20 @@ void h_strto_short(void) { VF_INPUT(u8, bsel); const int base = bsel == 0 ? 0 : 
   VF_REACH(); }
 
 /* every string of length <= 8 in bases 8, 16, 10, 36: strtol, strtoll, strtoul, strtoull */
-/*@GROUP name=strto_len8 props=C10,C02 kind=B bound=strlen<=8 unwind=12 tier=thorough timeout=1200 split=CC_BI:0:3 cost=4 solver=kissat@*/
-void h_strto_len8(void) { const int base = CC_BASE; VF_INPUT(u8, fn); CSTR_IN(8); const _Bool uns = fn >= 2;
-  VF_INPUT_BOOL(want_end); const ref_t r = REF64(uns, 8);
-  STRTO_ANY(fn)
+/*@GROUP name=strtol_len8 props=C10,C02 kind=B bound=strlen<=8 unwind=12 tier=thorough timeout=1200 split=CC_BI:0:2 cost=4 solver=kissat@*/
+void h_strtol_len8(void) { const int base = CC_BASE; VF_INPUT_BOOL(ll); CSTR_IN(8); STRTO_PRE(i64, 8, 0);
+  if (ll) { STRTO_POST(c_strtoll, long long); } else { STRTO_POST(c_strtol, long); }
+  VF_REACH(); }
+
+/* signed, base 36: eight free base-36 digits do not finish in 20 min (signed 64-bit chain) -> strlen <= 6 */
+/*@GROUP name=strtol_len6_b36 props=C10,C02 kind=B bound=strlen<=6 unwind=10 tier=thorough timeout=1200 split=CC_BI:3:3 cost=4 solver=kissat@*/
+void h_strtol_len6_b36(void) { const int base = CC_BASE; VF_INPUT_BOOL(ll); CSTR_IN(6); STRTO_PRE(i64, 6, 0);
+  if (ll) { STRTO_POST(c_strtoll, long long); } else { STRTO_POST(c_strtol, long); }
+  VF_REACH(); }
+
+/*@GROUP name=strtoul_len8 props=C10,C02 kind=B bound=strlen<=8 unwind=12 tier=thorough timeout=1200 split=CC_BI:0:3 cost=4 solver=kissat@*/
+void h_strtoul_len8(void) { const int base = CC_BASE; VF_INPUT_BOOL(ll); CSTR_IN(8); STRTO_PRE(u64, 8, 1);
+  if (ll) { STRTO_POST(c_strtoull, unsigned long long); } else { STRTO_POST(c_strtoul, unsigned long); }
   VF_REACH(); }
 
 /* numerals next to LONG_MIN / LONG_MAX / ULONG_MAX in bases 16 and 10 (cells 1:2): overflow exactly at the limits.  One function
@@ -477,6 +485,12 @@ void h_strtoul_near(void) { const int base = CC_BASE; CSTR_IN(CC_D64 + 3); NEAR_
 void h_atoi(void) { CSTR_IN(13); ATO_PRE(i32, 32, 13);
   ATO_POST(c_atoi, int); VF_REACH(); }
 
+/* quick stand-in for the long / long long spellings (separate function bodies): every string of at most 4 characters */
+/*@GROUP name=atol_len4 props=C10,C02 kind=B bound=strlen<=4 unwind=8 cost=2 solver=kissat@*/
+void h_atol_len4(void) { VF_INPUT_BOOL(ll); CSTR_IN(4); ATO_PRE(i64, 64, 4);
+  if (ll) ATO_POST(c_atoll, long long) else ATO_POST(c_atol, long)
+  VF_REACH(); }
+
 /*@GROUP name=atol_len8 props=C10,C02 kind=B bound=strlen<=8 unwind=12 tier=thorough timeout=1200 cost=3 solver=kissat@*/
 void h_atol_len8(void) { VF_INPUT_BOOL(ll); CSTR_IN(8); ATO_PRE(i64, 64, 8);
   if (ll) ATO_POST(c_atoll, long long) else ATO_POST(c_atol, long)
@@ -492,10 +506,19 @@ void h_stoi(void) { const int base = CC_BASE; RANGE_IN(CC_D32 + 3); STO_PRE(i32,
   STO_POST(s_stoi, int) VF_REACH(); }
 
 /* stol, stoll, stoul, stoull on every range of length <= 8 (0x prefix included in the base 16 cell) */
-/*@GROUP name=sto_len8 props=C10,C02 kind=B bound=len<=8 unwind=12 tier=thorough timeout=1200 split=CC_BI:0:3 cost=4 solver=kissat@*/
-void h_sto_len8(void) { const int base = CC_BASE; VF_INPUT(u8, fn); RANGE_IN(8); const _Bool uns = fn >= 2;
-  VF_INPUT_BOOL(want_pos); const ref_t r = REF64(uns, 8);
-  STO_ANY(fn)
+/*@GROUP name=stol_len8 props=C10,C02 kind=B bound=len<=8 unwind=12 tier=thorough timeout=1200 split=CC_BI:0:2 cost=4 solver=kissat@*/
+void h_stol_len8(void) { const int base = CC_BASE; VF_INPUT_BOOL(ll); RANGE_IN(8); STO_PRE(i64, 64, 8, 0);
+  if (ll) STO_POST(s_stoll, long long) else STO_POST(s_stol, long)
+  VF_REACH(); }
+
+/*@GROUP name=stol_len6_b36 props=C10,C02 kind=B bound=len<=6 unwind=10 tier=thorough timeout=1200 split=CC_BI:3:3 cost=4 solver=kissat@*/
+void h_stol_len6_b36(void) { const int base = CC_BASE; VF_INPUT_BOOL(ll); RANGE_IN(6); STO_PRE(i64, 64, 6, 0);
+  if (ll) STO_POST(s_stoll, long long) else STO_POST(s_stol, long)
+  VF_REACH(); }
+
+/*@GROUP name=stoul_len8 props=C10,C02 kind=B bound=len<=8 unwind=12 tier=thorough timeout=1200 split=CC_BI:0:3 cost=4 solver=kissat@*/
+void h_stoul_len8(void) { const int base = CC_BASE; VF_INPUT_BOOL(ll); RANGE_IN(8); STO_PRE(u64, 64, 8, 1);
+  if (ll) STO_POST(s_stoull, unsigned long long) else STO_POST(s_stoul, unsigned long)
   VF_REACH(); }
 
 /*@GROUP name=stol_near props=C10,C02 kind=B bound=first_15_digits_equal_LONG_MIN/MAX;no_whitespace;base_10 unwind=28 tier=thorough timeout=1200 split=CC_BI:2:2 cost=7 solver=kissat@*/
